@@ -48,14 +48,15 @@ type Cluster struct {
 	SettleBudget time.Duration
 	StallAfter   time.Duration // default: 10 s, at most 2/3 of SettleBudget
 
-	activity    int64
-	seq         int64
-	mu          sync.Mutex
-	unreachable map[uint64]bool
-	calls       []CallRec
-	gossip      []*GossipMsg
-	seenGossip  map[uint64]bool
-	ended       map[string]bool // session ids whose serve loop + teardown are over
+	activity         int64
+	seq              int64
+	unreachableCalls int64
+	mu               sync.Mutex
+	unreachable      map[uint64]bool
+	calls            []CallRec
+	gossip           []*GossipMsg
+	seenGossip       map[uint64]bool
+	ended            map[string]bool // session ids whose serve loop + teardown are over
 	// idSuffix makes session ids unique across the clusters of one process: goroutines of an
 	// earlier case may still be finishing their teardown when the next case has started, and
 	// their "session ended" notifications must not be taken for sessions of the new cluster
